@@ -256,6 +256,7 @@ func (w *World) processCommits() {
 	w.seenCommit = len(w.commits)
 	w.mu.Unlock()
 	for _, ci := range list {
+		w.commitSeq++
 		w.checkCommit(ci)
 	}
 	if len(list) > 0 && len(w.plan.ScriptChain) > 0 {
@@ -405,10 +406,14 @@ func (w *World) checkCommit(ci *fakepg.CommitInfo) {
 			ps.maxEverNum = ic.num
 		}
 	}
+	prevNum := ps.curNum
 	if len(curs) > 0 {
 		ps.curNum, ps.curHash = curs[len(curs)-1].num, curs[len(curs)-1].hash
 	} else {
 		ps.curNum, ps.curHash = -1, nil
+	}
+	if ps.curNum != prevNum {
+		ps.curHist = append(ps.curHist, curChange{seq: w.commitSeq, num: ps.curNum})
 	}
 	if len(insCur) > 0 || nDelCur > 0 || nDelData > 0 || len(ci.Inserted[dataFull]) > 0 {
 		w.checkState(ps, ci.Snap, "commit")
